@@ -6,7 +6,9 @@ package main
 
 import (
 	"fmt"
+	"io/ioutil"
 	"net"
+	"os"
 	"time"
 
 	. "verif/harness/kit"
@@ -337,11 +339,260 @@ func run(args []string) error {
 	}
 	o.Def("cases_msg", "Z * bool * list (Z * Z) * Z * res (Z * bool * Z * Z)", cases)
 
+	// ------------------------------------------------------------ call sites
+	// every path of the daemon that builds one of these messages for sending, run on
+	// the real code with MaxIncomingMessageLength != MaxOutgoingMessageLength (both small):
+	// what is handed to sendMessage / broadcastMessage (or reaches a connection's write
+	// queue) is measured against MaxOutgoingMessageLength
+	var sites []string
+	siteNames := []string{"GetBlocksMessage.process->GiveBlocks", "GetTxnsMessage.process->GiveTxns",
+		"AnnounceTxnsMessage.process->GetTxns", "GiveTxnsMessage.process->AnnounceTxns",
+		"Daemon.BroadcastTransaction->GiveTxns", "Daemon.broadcastBlock->GiveBlocks",
+		"Daemon.sendRandomPeers->GivePeers", "Daemon.announceTxnHashes->AnnounceTxns"}
+	siteKind := []int{kBlocks, kTxns, kGetTxns, kAnnounce, kTxns, kBlocks, kPeers, kAnnounce}
+	tmpDir, err := ioutil.TempDir("", "c23pex")
+	if err != nil {
+		return err
+	}
+	defer os.RemoveAll(tmpDir)
+	addSite := func(site int, sizes []uint64, maxOut, maxIn uint64, panicked bool, m gnet.Message, kept int, prefix bool) {
+		kind := siteKind[site]
+		var os_ string
+		enclen, verdict := -1, 2
+		if panicked || m == nil {
+			os_ = "Panic"
+		} else {
+			enclen, verdict = verdictOf(m, maxOut)
+			os_ = "(Val " + Tuple(fmt.Sprint(kept), B(prefix), fmt.Sprint(enclen), fmt.Sprint(verdict)) + ")"
+		}
+		sites = append(sites, Tuple(fmt.Sprint(kind), rle(sizes), Z(maxOut), Z(maxIn), os_))
+		cj := map[string]interface{}{"site": siteNames[site], "kind": kindName[kind], "item_count": len(sizes), "item_sizes": rleJSON(sizes),
+			"MaxOutgoingMessageLength": maxOut, "MaxIncomingMessageLength": maxIn, "panicked": panicked || m == nil, "kept": kept,
+			"kept_is_prefix": prefix, "encoded_len": enclen, "send_verdict_against_max_outgoing": verdict}
+		caseJSON["site"] = append(caseJSON["site"], cj)
+		o.Count(fmt.Sprint("site", site, sizes, maxOut, maxIn), maxOut >= 12)
+		hist.Add(fmt.Sprintf("site:%s:%s", siteNames[site], map[bool]string{true: "all-kept", false: "truncated"}[kept == len(sizes)]))
+		if verdict == 1 {
+			hist.Add("site:" + siteNames[site] + ":refused-by-send")
+		}
+	}
+	limits := func(sizes []uint64) [][2]uint64 {
+		// MaxOutgoing around a prefix boundary; MaxIncoming different: much larger, a bit larger, smaller
+		var bs []int64
+		b := int64(12)
+		bs = append(bs, b)
+		for _, x := range sizes {
+			b += int64(x)
+			bs = append(bs, b)
+		}
+		var out [][2]uint64
+		for k := 0; k < 3; k++ {
+			mo := bs[r.Intn(len(bs))] + int64(r.Intn(13)) - 10
+			if r.Chance(15) {
+				mo = int64(8 + r.Intn(int(b)+20))
+			}
+			if mo < 12 {
+				mo = 12 + int64(r.Intn(4))
+			}
+			var mi int64
+			switch r.Intn(4) {
+			case 0:
+				mi = 1024 * 1024
+			case 1:
+				mi = mo + 1 + int64(r.Intn(64))
+			case 2:
+				mi = mo*4 + 1000
+			default:
+				mi = 12 + int64(r.Intn(int(mo-11)))
+				if mi == mo {
+					mi = mo + 7
+				}
+			}
+			out = append(out, [2]uint64{uint64(mo), uint64(mi)})
+		}
+		return out
+	}
+	ns := 3
+	if f.Tier != "quick" {
+		ns = 30
+	}
+	for rep := 0; rep < ns; rep++ {
+		for site := 0; site < len(siteNames); site++ {
+			kind := siteKind[site]
+			cnt := 1 + r.Intn(5)
+			if site == 4 || site == 5 {
+				cnt = 1
+			}
+			it := genItems(r, kind, cnt)
+			if site == 3 { // GiveTxns.process announces the hashes of the transactions it was given
+				it = genItems(r, kTxns, cnt)
+				it.hashes = nil
+				it.sizes = nil
+				for _, t := range it.txns {
+					it.hashes = append(it.hashes, t.Hash())
+					it.sizes = append(it.sizes, 32)
+				}
+			}
+			if site == 6 { // pex only accepts public addresses with a port >= 1024
+				it = &items{kind: kPeers}
+				for j := 0; j < cnt+2; j++ {
+					addr := fmt.Sprintf("112.%d.%d.%d:%d", 1+r.Intn(250), r.Intn(256), 1+r.Intn(250), 1024+r.Intn(60000))
+					ip, err := daemon.NewIPAddr(addr)
+					if err != nil {
+						return err
+					}
+					it.peers = append(it.peers, pex.Peer{Addr: addr})
+					it.ips = append(it.ips, ip)
+					it.sizes = append(it.sizes, daemon.VerifEncodeSizeIPAddr(&ip))
+				}
+			}
+			for _, lim := range limits(it.sizes) {
+				maxOut, maxIn := lim[0], lim[1]
+				cfg := daemon.NewDaemonConfig()
+				cfg.MaxOutgoingMessageLength = maxOut
+				cfg.MaxIncomingMessageLength = maxIn
+				cfg.MaxGetBlocksResponseCount = 1000
+				cfg.MaxTxnAnnounceNum = 3
+				var msgs []gnet.Message
+				var reqs [][]uint64 // requested item sizes per message
+				panicked := false
+				if site <= 3 {
+					node := &daemon.VerifC23Node{Cfg: cfg, Blocks: it.blocks, Known: it.txns, Unknown: it.hashes}
+					panicked = Guard(func() {
+						switch site {
+						case 0:
+							node.VerifC23GetBlocks("1.2.3.4:6000", 0, 1000)
+						case 1:
+							node.VerifC23GetTxns("1.2.3.4:6000", []cipher.SHA256{{1}})
+						case 2:
+							node.VerifC23AnnounceTxns("1.2.3.4:6000", it.hashes)
+						case 3:
+							node.VerifC23GiveTxns("1.2.3.4:6000", it.txns)
+						}
+					})
+					for _, s := range node.Sent {
+						msgs = append(msgs, s.Msg)
+						reqs = append(reqs, it.sizes)
+					}
+					if panicked {
+						addSite(site, it.sizes, maxOut, maxIn, true, nil, 0, false)
+						continue
+					}
+				} else {
+					conns := []string{"112.32.32.14:6000", "112.32.32.15:6001"}
+					d, err := daemon.VerifC23NewDaemon(cfg, conns, peerAddrs(it), 4, tmpDir)
+					if err != nil {
+						return err
+					}
+					panicked = Guard(func() {
+						switch site {
+						case 4:
+							_ = d.BroadcastTransaction(it.txns[0])
+						case 5:
+							_ = d.BroadcastBlock(it.blocks[0])
+						case 6:
+							_ = d.SendRandomPeers(conns[0])
+						case 7:
+							_ = d.AnnounceTxnHashes(it.hashes)
+						}
+					})
+					q := d.Drain()
+					d.Close()
+					if panicked {
+						addSite(site, it.sizes, maxOut, maxIn, true, nil, 0, false)
+						continue
+					}
+					msgs = q[0]
+					for k := range msgs {
+						switch site {
+						case 6:
+							n := len(it.sizes)
+							if n > 4 { // pex ReplyCount
+								n = 4
+							}
+							reqs = append(reqs, it.sizes[:n])
+						case 7: // divideHashes: consecutive groups of MaxTxnAnnounceNum
+							lo, hi := k*3, k*3+3
+							if hi > len(it.sizes) {
+								hi = len(it.sizes)
+							}
+							if lo > hi {
+								lo = hi
+							}
+							reqs = append(reqs, it.sizes[lo:hi])
+						default:
+							reqs = append(reqs, it.sizes)
+						}
+					}
+				}
+				for k, m := range msgs {
+					kept, prefix := keptOf(m, it, site, k)
+					addSite(site, reqs[k], maxOut, maxIn, false, m, kept, prefix)
+				}
+			}
+		}
+	}
+	o.Def("cases_site", "Z * list (Z * Z) * Z * Z * res (Z * bool * Z * Z)", sites)
+
 	o.Side["cases"] = caseJSON
 	o.Side["samples"] = samples
 	o.Side["distribution"] = hist.Sorted()
 	o.Side["rule"] = "case = (message kind, item sizes, maxMsgLength, constructor or direct truncate* call); observed = items kept, kept-is-prefix, len(EncodeMessage), verdict of sendMessage's length test; non-trivial = max >= 12 and a non-empty item list"
 	return o.Write(f.Out, f.JSON)
+}
+
+func peerAddrs(it *items) []string {
+	var out []string
+	for _, p := range it.peers {
+		out = append(out, p.Addr)
+	}
+	return out
+}
+
+// number of items in an outgoing message and whether they are a prefix of the requested ones
+func keptOf(m gnet.Message, it *items, site, k int) (int, bool) {
+	switch x := m.(type) {
+	case *daemon.GiveBlocksMessage:
+		ok := len(x.Blocks) <= len(it.blocks)
+		for i := 0; ok && i < len(x.Blocks); i++ {
+			ok = x.Blocks[i].HashHeader() == it.blocks[i].HashHeader()
+		}
+		return len(x.Blocks), ok
+	case *daemon.GiveTxnsMessage:
+		ok := len(x.Transactions) <= len(it.txns)
+		for i := 0; ok && i < len(x.Transactions); i++ {
+			ok = x.Transactions[i].Hash() == it.txns[i].Hash()
+		}
+		return len(x.Transactions), ok
+	case *daemon.GetTxnsMessage:
+		ok := len(x.Transactions) <= len(it.hashes)
+		for i := 0; ok && i < len(x.Transactions); i++ {
+			ok = x.Transactions[i] == it.hashes[i]
+		}
+		return len(x.Transactions), ok
+	case *daemon.AnnounceTxnsMessage:
+		off := 0
+		if site == 7 {
+			off = 3 * k
+		}
+		ok := off+len(x.Transactions) <= len(it.hashes)
+		for i := 0; ok && i < len(x.Transactions); i++ {
+			ok = x.Transactions[i] == it.hashes[off+i]
+		}
+		return len(x.Transactions), ok
+	case *daemon.GivePeersMessage:
+		// a random sample of the exchangeable peers: each must be one of them
+		ok := true
+		for _, p := range x.Peers {
+			found := false
+			for _, q := range it.ips {
+				found = found || p == q
+			}
+			ok = ok && found
+		}
+		return len(x.Peers), ok
+	}
+	return -1, false
 }
 
 func rle(sizes []uint64) string {
